@@ -14,6 +14,7 @@ At(tag) == l > 1 /\ E.e = tag
 
 R_Rows  == At("report") /\ E.mode \in Modes => ReportOK(E.mode, E.rows, E.hops)
 R_Flows == At("report") /\ E.mode = "flows" => FlowsOK(E.lines, E.flows)
+R_Dot   == At("report") /\ E.mode = "dot" => E.parsed /\ DotOK(E.edges, E.flows)
 R_NoPanic == At("report") => ~E.panic
 
 Accepted == IF TLCGet("stats").diameter - 1 = N THEN TRUE
